@@ -34,7 +34,7 @@ enum { K_LETTERS, K_QUERIES, K_ANSWERS, K_DUPS, K_CACHE_EXPECTED, K_CACHE_SAME, 
 enum { L_PING, L_DATA_FIRST, L_DATA_LAST, L_DUP, L_TUN, L_TIME, L_RAWLOGIN, L_LAZY, L_SETFRAG };
 enum { V_SAME, V_NEWID, V_NEWSRC, V_UPPER };
 typedef struct letter { int kind, a, b; char name[40]; } letter;
-static letter LT[64]; static int nlt;
+static letter LT[128]; static int nlt;
 static void addl(int kind, int a, int b, const char *fmt, ...)
 {
 	letter *l = &LT[nlt++]; l->kind = kind; l->a = a; l->b = b;
@@ -64,6 +64,9 @@ static void mk_alphabet(void)
 		if (KS[k] == 2 && v != V_SAME && v != V_NEWID) continue;
 		addl(L_DUP, KS[k], v, "redeliver(%d back,%s)", KS[k], VN[v]);
 	}
+	/* C16: every query the server can still remember (30 pings / 15 data): enabled once the session is that old,
+	 * i.e. in the warmed-up start states */
+	if (is16) for (int k = 5; k < 30; k++) { addl(L_DUP, k, V_SAME, "redeliver(%d back,same)", k); addl(L_DUP, k, V_NEWID, "redeliver(%d back,newid)", k); }
 	addl(L_TUN, 60, 0, "tun(60B)");
 	addl(L_TUN, 260, 0, "tun(260B)");
 	addl(L_TIME, 20, 0, "+20ms");
@@ -74,7 +77,7 @@ static void mk_alphabet(void)
 }
 
 /* ---------------------------------------------------------------- harness-side client model */
-#define HIST 6
+#define HIST 32
 typedef struct sent { int used; int len; int isdata; uint8_t pkt[400]; } sent;
 typedef struct pend { int used; struct sockaddr_storage src; int id, qtype, qnlen; uint8_t qname[256]; } pend;
 typedef struct cachee { int used; int qtype, qnlen; uint8_t qname[256]; int plen; uint8_t payload[300]; } cachee;
@@ -372,8 +375,17 @@ static void key(uint64_t k[2])
 static const char *lname(int l) { return LT[l].name; }
 
 /* ---------------------------------------------------------------- start states: type x lazy */
-#define NSTART 14
-static void start_desc(int st, char *b, size_t n) { snprintf(b, n, "session logged in with -T %s, %s mode", QTN[st % 7], st < 7 ? "lazy" : "immediate"); }
+#define NSTART 17
+/* start states 14..16: warmed-up sessions (NULL lazy, NULL immediate, TXT lazy) */
+static const int WARM_BASE[3] = { 0, 7, 2 };
+static void start_desc(int st, char *b, size_t n)
+{
+	int base = st >= 14 ? WARM_BASE[st - 14] : st;
+	snprintf(b, n, "session logged in with -T %s, %s mode%s", QTN[base % 7], base < 7 ? "lazy" : "immediate",
+		 st >= 14 ? ", warmed up: 17 idle pings, 7 one-fragment packets each way (both 3-bit sequence numbers about to wrap, 24+ pings in the server's query memory)" : "");
+}
+static int apply(int li);
+static int letter_by_name(const char *n) { for (int i = 0; i < nlt; i++) if (!strcmp(LT[i].name, n)) return i; vw_fatal("no letter %s", n); }
 
 static void expect_one(const char *what)
 {
@@ -382,8 +394,9 @@ static void expect_one(const char *what)
 	if (adv_nout < 1) vw_fatal("start state: no answer to %s", what);
 }
 
-static void boot(int st)
+static void boot(int st0)
 {
+	int st = st0 >= 14 ? WARM_BASE[st0 - 14] : st0;
 	struct w_server_cfg c = { .topdomain = DOM, .password = PW, .my_ip = "10.0.0.1", .netmask = 29, .mtu = 1130, .check_ip = 1, .srand_seed = 1 };
 	uint8_t pkt[800]; int n;
 	vw_init();
@@ -411,6 +424,16 @@ static void boot(int st)
 	if (st < 7) { adv_clear(); n = tm_short(pkt, ++M.idseq, M.qt, 'o', tm_5to8(0), 'l', M.cmc++, DOM); send_q(&SRC_A, pkt, n); expect_one("lazy switch"); }
 	for (int i = 0; i < NPEND; i++) if (M.pending[i].used) vw_fatal("start state: handshake query left unanswered");
 	adv_clear();
+	if (st0 >= 14) {
+		int lp = letter_by_name("ping"), lt = letter_by_name("tun(60B)"), ld = letter_by_name("data(last)");
+		for (int i = 0; i < 17; i++) apply(lp);
+		for (int i = 0; i < 7; i++) { apply(lt); apply(lp); }
+		for (int i = 0; i < 7; i++) apply(ld);
+		apply(lp);
+		struct tun_user *u = &s_w_users()[0];
+		if (u->outpacket.seqno != 7 || u->inpacket.seqno != 7) vw_fatal("warm-up did not park the sequence numbers (down %d up %d)", u->outpacket.seqno, u->inpacket.seqno);
+		adv_clear();
+	}
 }
 
 static eb_ops OPS;
@@ -428,8 +451,9 @@ static void job(int j)
 	__atomic_fetch_add(&XS->execs, 1, __ATOMIC_RELAXED);
 }
 static int STARTS[NSTART], nstarts;
-static void jobn(int j) { XC.job = STARTS[j / nlt] * nlt + j % nlt; job(XC.job); }
-static void describe_job(int j, char *b, size_t n) { char d[100]; start_desc(j / nlt, d, sizeof d); snprintf(b, n, "%s; first letter %s", d, LT[j % nlt].name); }
+static int base_depth;
+static void jobn(int j) { XC.job = STARTS[j / nlt] * nlt + j % nlt; OPS.maxdepth = STARTS[j / nlt] >= 14 ? base_depth - 2 : base_depth; job(XC.job); }
+static void describe_job(int j, char *b, size_t n) { char d[300]; start_desc(j / nlt, d, sizeof d); snprintf(b, n, "%s; first letter %s", d, LT[j % nlt].name); }
 
 int main(int argc, char **argv)
 {
@@ -446,6 +470,7 @@ int main(int argc, char **argv)
 	mk_alphabet();
 	OPS.nletters = nlt; OPS.apply = apply; OPS.key = key; OPS.name = lname;
 	OPS.maxdepth = depth ? depth : thorough ? 5 : 4;
+	base_depth = OPS.maxdepth;
 	xp_describe_job = describe_job;
 	xp_init(PROP, a.tier, 1 << 24, a.budget_s);
 	if (a.replay) {
@@ -455,11 +480,15 @@ int main(int argc, char **argv)
 		return 0;
 	}
 	hc_quiet();
-	if (thorough) for (int s = 0; s < NSTART; s++) STARTS[nstarts++] = s;
+	if (thorough) for (int s = 0; s < 14; s++) STARTS[nstarts++] = s;
 	else { int q[] = { 0, 7, 2, 5, 4 }; for (int i = 0; i < 5; i++) STARTS[nstarts++] = q[i]; }
+	/* warmed-up sessions: C16 only (re-delivery of everything the server remembers), one level shallower */
+	int nplain = nstarts;
+	if (is16) for (int s = 14; s < NSTART; s++) STARTS[nstarts++] = s;
 	xp_run_jobs(nstarts * nlt, jobn, a.workers);
-	{ char names[600] = ""; for (int i = 0; i < nlt; i++) { strcat(names, LT[i].name); strcat(names, i + 1 < nlt ? " | " : ""); } xp_sample("alphabet (%d letters): %s", nlt, names); }
-	for (int i = 0; i < nstarts && i < 6; i++) { char d[100]; start_desc(STARTS[i], d, sizeof d); xp_sample("start state: %s", d); }
+	{ char names[3000] = ""; for (int i = 0; i < nlt && i < 40; i++) { strcat(names, LT[i].name); strcat(names, i + 1 < nlt ? " | " : ""); } xp_sample("alphabet (%d letters): %s", nlt, names); }
+	(void)nplain;
+	for (int i = 0; i < nstarts && i < 8; i++) { char d[300]; start_desc(STARTS[i], d, sizeof d); xp_sample("start state: %s", d); }
 	char extra[500];
 	snprintf(extra, sizeof extra, "\"letters\":%d,\"depth\":%d,\"start_states\":%d,\"letters_applied\":%ld,\"queries_sent\":%ld,\"answers_seen\":%ld,\"redeliveries\":%ld,\"cache_repeats_expected\":%ld,\"cache_repeats_identical\":%ld,\"position_checks\":%ld,\"max_pending\":%ld,\"tun_writes\":%ld,\"data_answers\":%ld,\"rest_states_with_two_held\":%ld,\"sanitizer_notes\":%ld",
 		 nlt, OPS.maxdepth, nstarts, XS->counters[K_LETTERS], XS->counters[K_QUERIES], XS->counters[K_ANSWERS], XS->counters[K_DUPS], XS->counters[K_CACHE_EXPECTED], XS->counters[K_CACHE_SAME], XS->counters[K_POS_CHECKS], XS->counters[K_MAXPEND], XS->counters[K_TUNW], XS->counters[K_DATA_ANS], XS->counters[K_HELD2], XS->counters[K_SAN]);
